@@ -27,6 +27,7 @@ Section ExprInd.
   Hypothesis HOr : forall a b, P a -> P b -> P (EOr a b).
   Hypothesis HIf : forall c a b, P c -> P a -> P b -> P (EIf c a b).
   Hypothesis HCall : forall f es, Forall P es -> P (ECall f es).
+  Hypothesis HSub : forall e i, P e -> P i -> P (ESub e i).
 
   Fixpoint expr_ind' (e : expr) : P e :=
     let fl := (fix fl (l : list expr) : Forall P l :=
@@ -44,6 +45,7 @@ Section ExprInd.
     | EOr a b => HOr a b (expr_ind' a) (expr_ind' b)
     | EIf c a b => HIf c a b (expr_ind' c) (expr_ind' a) (expr_ind' b)
     | ECall f es => HCall f es (fl es)
+    | ESub a i => HSub a i (expr_ind' a) (expr_ind' i)
     end.
 End ExprInd.
 
@@ -260,6 +262,123 @@ Proof. intros A B P l1 l2 H. induction H; simpl; auto. Qed.
 
 Lemma gamma_bool_neg : forall o b, gamma (ABool o) (VBool b) -> gamma (ABool (option_map negb o)) (VBool (negb b)).
 Proof. intros [x|] b H; simpl in *; eauto. inversion H; subst; auto. Qed.
+
+(* ---------------- subscripts ---------------- *)
+
+Lemma forall2_nth : forall {A B} (P : A -> B -> Prop) l1 l2 k y,
+  Forall2 P l1 l2 -> nth_error l2 k = Some y -> exists x, nth_error l1 k = Some x /\ P x y.
+Proof.
+  intros A B P l1 l2 k y H. revert k. induction H; intros k HN.
+  - destruct k; discriminate.
+  - destruct k; simpl in *.
+    + inversion HN; subst. eauto.
+    + auto.
+Qed.
+
+Lemma idx_of_sound : forall ai vi z, gamma ai vi -> idx_of ai = Some z -> idx_val vi = Some z.
+Proof.
+  intros ai vi z HG HI. destruct ai as [[c|]| |k|c|[b|]| | | | | |]; simpl in HI; try discriminate.
+  - inversion HI; subst. simpl in HG. subst. reflexivity.
+  - inversion HI; subst. simpl in HG. subst. reflexivity.
+Qed.
+
+Lemma in_concat_nth : forall {A} (ll : list (list A)) k l x, nth_error ll k = Some l -> In x l -> In x (concat ll).
+Proof.
+  intros A ll. induction ll as [|l0 ll IH]; intros k l x HN HI.
+  - destruct k; discriminate.
+  - simpl. apply in_or_app. destruct k; simpl in HN.
+    + inversion HN; subst. auto.
+    + right. eapply IH; eauto.
+Qed.
+
+(* the element selected at run time is described by one of the bindings the abstract subscript returns *)
+Lemma seq_sub_sound : forall el xs ai vi r,
+  Forall2 any_gamma el xs -> gamma ai vi ->
+  match idx_val vi with
+  | Some z => match norm_idx z (length xs) with Some k => nth_error xs k | None => None end
+  | None => None
+  end = Some r ->
+  (forall bs, match idx_of ai with
+              | Some z => match norm_idx z (length el) with Some k => nth_error el k | None => None end
+              | None => None
+              end = Some bs -> any_gamma bs r)
+  /\ any_gamma (dedupa (concat el)) r.
+Proof.
+  intros el xs ai vi r HF HG HC.
+  destruct (idx_val vi) as [z|] eqn:EV; [|discriminate].
+  destruct (norm_idx z (length xs)) as [k|] eqn:EK; [|discriminate].
+  destruct (forall2_nth _ _ _ _ _ HF HC) as [bs0 [HN [b [Hb Hgb]]]].
+  assert (EL : length el = length xs) by (eapply Forall2_length; eauto).
+  split.
+  - intros bs HB. destruct (idx_of ai) as [z'|] eqn:EI; [|discriminate].
+    pose proof (idx_of_sound _ _ _ HG EI) as E2. rewrite EV in E2. inversion E2; subst z'.
+    rewrite EL, EK, HN in HB. inversion HB; subst. exists b; auto.
+  - exists b. split; auto. apply dedupa_in. eapply in_concat_nth; eauto.
+Qed.
+
+Lemma asub_sound : forall lz idxs a ai v vi r,
+  gamma a v -> gamma ai vi -> csub v vi = Some r -> any_gamma (asub lz idxs a ai) r.
+Proof.
+  intros lz idxs a ai v vi r HA HG HC. unfold csub in HC.
+  destruct a as [c| |k|c|c| |el|el|bs|kd ks vs|].
+  - destruct c; simpl in HA; [subst|destruct HA as [? ->]]; discriminate.
+  - simpl in HA. destruct HA as [? ->]. discriminate.
+  - simpl in HA. subst. discriminate.
+  - destruct c; simpl in HA; [subst|destruct HA as [? ->]]; discriminate.
+  - destruct c; simpl in HA; [subst|destruct HA as [? ->]]; discriminate.
+  - simpl in HA. subst. discriminate.
+  - destruct (gamma_list_inv _ _ HA) as [xs [-> HF]]. simpl seq_items in HC. cbv iota in HC.
+    destruct (seq_sub_sound el xs ai vi r HF HG HC) as [S1 S2].
+    unfold asub.
+    destruct (lz && negb (forallb (fun j => is_some (sub_resolved (AList el) j)) idxs)); [exact S2|].
+    destruct (sub_resolved (AList el) ai) as [bs|] eqn:ER; [|exact S2].
+    apply S1. exact ER.
+  - destruct (gamma_tuple_inv _ _ HA) as [xs [-> HF]]. simpl seq_items in HC. cbv iota in HC.
+    destruct (seq_sub_sound el xs ai vi r HF HG HC) as [S1 S2].
+    unfold asub.
+    assert (ANY : any_gamma [AAny] r) by (exists AAny; simpl; auto).
+    destruct lz.
+    + destruct idxs as [|j [|j2 idxs]]; try exact ANY.
+      destruct (sub_resolved (ATuple el) ai) as [bs|] eqn:ER; [|exact ANY]. apply S1. exact ER.
+    + destruct (sub_resolved (ATuple el) ai) as [bs|] eqn:ER; [|exact S2]. apply S1. exact ER.
+  - destruct (gamma_set_inv _ _ HA) as [xs [-> _]]. discriminate.
+  - destruct v; simpl in HA; try tauto; discriminate.
+  - exists AAny. simpl. auto.
+Qed.
+
+(* Python's index normalisation: the totalised [norm_idx] answers exactly on the in-range indices *)
+Lemma norm_idx_spec : forall z n k,
+  norm_idx z n = Some k <->
+  ((0 <= z < Z.of_nat n)%Z /\ Z.of_nat k = z) \/ ((- Z.of_nat n <= z < 0)%Z /\ Z.of_nat k = (z + Z.of_nat n)%Z).
+Proof.
+  intros z n k. unfold norm_idx.
+  destruct (0 <=? z)%Z eqn:E1; destruct (z <? Z.of_nat n)%Z eqn:E2; simpl;
+    try apply Z.leb_le in E1; try apply Z.leb_gt in E1; try apply Z.ltb_lt in E2; try apply Z.ltb_ge in E2.
+  - split.
+    + intros H. inversion H; subst. left. split; [lia|]. apply Z2Nat.id; lia.
+    + intros [[_ H]|[H _]]; [|lia]. f_equal. rewrite <- H. apply Nat2Z.id.
+  - assert (X : (z <? 0)%Z = false) by (apply Z.ltb_ge; lia). rewrite X. simpl.
+    split; [discriminate|]. intros [[H _]|[H _]]; lia.
+  - assert (X : (z <? 0)%Z = true) by (apply Z.ltb_lt; lia). rewrite X. simpl.
+    destruct (- Z.of_nat n <=? z)%Z eqn:E3; [apply Z.leb_le in E3|apply Z.leb_gt in E3].
+    + split.
+      * intros H. inversion H; subst. right. split; [lia|]. apply Z2Nat.id; lia.
+      * intros [[H _]|[_ H]]; [lia|]. f_equal. rewrite <- H. apply Nat2Z.id.
+    + split; [discriminate|]. intros [[H _]|[H _]]; lia.
+  - lia.
+Qed.
+
+(* a subscript that completes selected an element that exists: no answer comes from a default *)
+Lemma csub_in_range : forall v i r, csub v i = Some r ->
+  exists xs z k, seq_items v = Some xs /\ idx_val i = Some z /\ norm_idx z (length xs) = Some k /\
+                 k < length xs /\ nth_error xs k = Some r.
+Proof.
+  intros v i r H. unfold csub in H.
+  destruct (seq_items v) as [xs|] eqn:E1; [|discriminate].
+  destruct (idx_val i) as [z|] eqn:E2; [|discriminate].
+  destruct (norm_idx z (length xs)) as [k|] eqn:E3; [|discriminate].
+  exists xs, z, k. repeat split; auto. apply nth_error_Some. congruence.
+Qed.
 
 (* ---------------- expressions ---------------- *)
 
@@ -731,6 +850,34 @@ Section Sim.
         destruct (wmatch_globals _ _ _ HW) as [Hne HG].
         change (aexpr lz acall ft locs W (ECall f es)) with (acall ft f (aargs lz acall ft locs W es)).
         eapply Hcall; eauto. }
+      split; auto.
+      intros locs st v W w HE HI HW. rewrite acond_unfold. simpl lit_truth. cbv iota.
+      eapply cond_default; eauto.
+    (* ---- subscript ---- *)
+    - destruct IHe1 as [IHx1 _]. destruct IHe2 as [IHx2 _].
+      assert (HX : expr_sim_at (ESub e1 e2)).
+      { intros locs st v W w HE HI HW. simpl in HE.
+        destruct (ceval_expr ccall ft locs st e1) as [v1|] eqn:E1; simpl in HE; [|discriminate].
+        destruct (ceval_expr ccall ft locs st e2) as [v2|] eqn:E2; simpl in HE; [|discriminate].
+        destruct (IHx1 locs st v1 W w E1 HI HW) as [a [Ha Hga]].
+        assert (HI' : In w (dedupw (map fst (aexpr lz acall ft locs W e1)))).
+        { apply dedupw_in. apply in_map_iff. exists (w, a); auto. }
+        destruct (IHx2 locs st v2 _ w E2 HI' HW) as [ai [Hai Hgi]].
+        change (aexpr lz acall ft locs W (ESub e1 e2)) with
+          (let Re := aexpr lz acall ft locs W e1 in
+           let Ri := aexpr lz acall ft locs (dedupw (map fst Re)) e2 in
+           let idxs := dedupa (map snd Ri) in
+           dedupr (flat_map (fun ra => flat_map (fun ri =>
+                      if world_eqb (fst ra) (fst ri)
+                      then map (fun b => (fst ra, b)) (asub lz idxs (snd ra) (snd ri)) else []) Ri) Re)).
+        cbv zeta.
+        destruct (asub_sound lz (dedupa (map snd (aexpr lz acall ft locs
+                                   (dedupw (map fst (aexpr lz acall ft locs W e1))) e2))) a ai v1 v2 v Hga Hgi HE)
+          as [b [Hb Hgb]].
+        exists b. split; auto.
+        apply dedupr_in. apply in_flat_map. exists (w, a). split; auto.
+        apply in_flat_map. exists (w, ai). split; auto.
+        simpl. rewrite world_eqb_refl. apply in_map_iff. exists b. auto. }
       split; auto.
       intros locs st v W w HE HI HW. rewrite acond_unfold. simpl lit_truth. cbv iota.
       eapply cond_default; eauto.
